@@ -59,4 +59,22 @@ static int drv_split(char * line, char ** tok, int max)
 	}
 	return n;
 }
+
+/* Called by a driver in the child process it forks for ONE case: a case needs milliseconds of
+ * processor time, so a child that has burnt DRV_CASE_CPU_S seconds of it is looping (a completion
+ * that never comes, an event loop spinning on a stale readiness bit).  The kernel then ends it
+ * with SIGXCPU, the parent reports the signal on that case's line, and the comparison with the
+ * model turns that line into the failing input.  Processor time, not wall time: a busy machine
+ * does not trip it. */
+#include <sys/resource.h>
+#ifndef DRV_CASE_CPU_S
+#define DRV_CASE_CPU_S 8
+#endif
+static inline void drv_case_limits(void)
+{
+	struct rlimit rl;
+	rl.rlim_cur = DRV_CASE_CPU_S; rl.rlim_max = DRV_CASE_CPU_S + 2;
+	(void)setrlimit(RLIMIT_CPU, &rl);
+}
+
 #endif
